@@ -34,6 +34,10 @@ SEMANTIC = [
     'loop invariant not satisfied',
     'index out of bounds',
     'failed this postcondition',
+    'unable to prove post-condition of closure',
+    'unable to prove pre-condition of closure',
+    'loop ensures not satisfied',
+    'possible cast underflow/overflow',
 ]
 TOOL_LIMIT = ['Resource limit (rlimit) exceeded', 'rlimit', 'timed out', 'out of memory']
 
